@@ -68,6 +68,13 @@ checks.update({
    note="+-1 s around expiry is don't-care; the clock is the overlay virtual clock (all time.Now/Since/Until in ory/fosite are rewritten at build time)."),
 })
 
+checks.update({
+ "C11": dict(level="exploration", engine="ENUM", ref="DESIGN.md §5 C11",
+   technique="exhaustive enumeration of a URI mutation grammar (all compositions up to a depth) x registered sets x response modes x error timings against the real authorization and PAR endpoints; written bytes judged by an independent RFC 3986 splitter",
+   text="For 11 registered-URI sets, every composition of <=1 (quick) / <=2 (thorough) of 60 mutations of a registered URI is requested under 6 response type/mode combinations and 7 error timings (and through PAR); whenever a Location header or form_post action is written, its target (minus response parameters) must be identical to a registered URI or an http loopback-literal variant with equal host/path/query, absolute and fragment-free; codes never go to plain-http non-local targets; a missing redirect_uri with several registered never redirects.",
+   note="Query permutations/re-encodings and scheme case count as identical; percent-decoded-equal loopback paths are don't-care. Known finding: form_post with non-http(s) schemes (see known_findings.json)."),
+})
+
 # properties not (yet) claimed: reason
 not_applicable = {
 }
@@ -88,7 +95,7 @@ man = {
  "engines": [
   {"name": "HIST", "path": "h/fam.go", "serves_properties": ["C01", "C04", "C08", "C09"], "kind_free_text": "explicit-state breadth-first search over API histories of the real provider, lock-step reference model, worker subprocesses, global dedup on canonical store dump"},
   {"name": "SEQ", "path": "h/c03.go", "serves_properties": ["C03", "C16", "C17"], "kind_free_text": "exhaustive bounded enumeration of operation sequences on the real provider"},
-  {"name": "ENUM", "path": "h/c02.go h/c05.go h/c06.go h/c07.go h/c12.go", "serves_properties": ["C02", "C05", "C06", "C07", "C12"], "kind_free_text": "exhaustive enumeration of finite input/configuration/history-position products, each case executed on a fresh real provider and judged by an independent reference predicate"},
+  {"name": "ENUM", "path": "h/c02.go h/c05.go h/c06.go h/c07.go h/c11.go h/c12.go", "serves_properties": ["C02", "C05", "C06", "C07", "C11", "C12"], "kind_free_text": "exhaustive enumeration of finite input/configuration/history-position products, each case executed on a fresh real provider and judged by an independent reference predicate"},
  ],
  "checks": [],
  "notes": "All checks rebuild the instrumented harness from /repo's working tree (./verif). Violations are re-executed 5x from their artefact before being reported; known findings live in /verif/known_findings.json.",
